@@ -1411,3 +1411,149 @@ Theorem F5_nodecode_refuted :
   (exists up, serve pinned w_rules_nd false "h" "/files/x$$$escaped-slash$$$y" "" = Accepted "nd" false [("rest", "x%2Fy")] up) /\
   decode_keep_slash "x$$$escaped-slash$$$y" = "x$$$escaped-slash$$$y".
 Proof. splits; try (vm_compute; reflexivity). eexists. vm_compute. reflexivity. Qed.
+
+(** ** the evaluator's executable equivalence covers [reenc] *)
+
+Lemma norm_plain c r : Ascii.eqb c "%"%char = false -> norm (String c r) = String c (norm r).
+Proof.
+  intro H. destruct r as [|a [|b r']]; try reflexivity.
+  change (norm (String c (String a (String b r'))))
+    with (if Ascii.eqb c "%"%char && ishex a && ishex b
+          then (if unreserved (hexbyte a b) then String (hexbyte a b) (norm r') else pct_triplet (hexbyte a b) (norm r'))
+          else String c (norm (String a (String b r')))).
+  rewrite H. reflexivity.
+Qed.
+
+Lemma norm_trip a b r : ishex a = true -> ishex b = true ->
+  norm (String "%"%char (String a (String b r))) =
+  if unreserved (hexbyte a b) then String (hexbyte a b) (norm r) else pct_triplet (hexbyte a b) (norm r).
+Proof.
+  intros Ha Hb.
+  change (norm (String "%"%char (String a (String b r))))
+    with (if Ascii.eqb "%"%char "%"%char && ishex a && ishex b
+          then (if unreserved (hexbyte a b) then String (hexbyte a b) (norm r) else pct_triplet (hexbyte a b) (norm r))
+          else String "%"%char (norm (String a (String b r)))).
+  rewrite Ha, Hb. reflexivity.
+Qed.
+
+Lemma reenc_norm s s' : reenc s s' -> norm s = norm s'.
+Proof.
+  induction 1 as [|c s s' Hc _ IH|c a b s s' Hu Ha Hb Hv _ IH|c a b s s' Hu Ha Hb Hv _ IH
+                  |a b a' b' s s' Ha Hb Ha' Hb' Hv _ IH].
+  - reflexivity.
+  - rewrite !norm_plain by assumption. rewrite IH. reflexivity.
+  - rewrite norm_plain by (apply unreserved_not_pct; assumption). rewrite norm_trip by assumption.
+    rewrite Hv, Hu, IH. reflexivity.
+  - rewrite (norm_plain c) by (apply unreserved_not_pct; assumption). rewrite norm_trip by assumption.
+    rewrite Hv, Hu, IH. reflexivity.
+  - rewrite !norm_trip by assumption. rewrite Hv, IH. reflexivity.
+Qed.
+
+Theorem reenc_equiv_paths s s' : reenc s s' -> equiv_paths s s' = true.
+Proof.
+  intro R. unfold equiv_paths, wellformed.
+  destruct (reenc_unescapable _ _ R) as [p Hp]. rewrite <- (reenc_unescape _ _ R), Hp.
+  rewrite (reenc_norm _ _ R), String.eqb_refl. reflexivity.
+Qed.
+
+(** ** `off`: captured values are the decoded pieces *)
+
+Definition ns_t (a b : ascii) : bool := negb (Ascii.eqb (hexbyte a b) "/"%char).
+
+Lemma enc_slash_tok v : wfenc v -> enc_slash v = negb (tok_all (fun _ => true) ns_t v).
+Proof.
+  unfold enc_slash. induction 1 as [|c s Hc Hs IH|a b s Ha Hb Hs IH].
+  - reflexivity.
+  - rewrite !contains_pct_plain by assumption. rewrite tok_all_plain by assumption. exact IH.
+  - rewrite !contains_esc_trip by assumption. rewrite tok_all_trip. unfold ns_t at 1.
+    rewrite slash_triplet by assumption.
+    destruct (Ascii.eqb "2"%char a && Ascii.eqb "F"%char b), (Ascii.eqb "2"%char a && Ascii.eqb "f"%char b);
+      cbn [orb negb andb]; rewrite ?orb_true_r; try reflexivity; exact IH.
+Qed.
+
+Lemma pieces_tok fp ft p segs : fp "/"%char = true -> wfenc p -> tok_all fp ft p = true -> path_segs p = Some segs ->
+  (forall s, In s segs -> tok_all fp ft s = true) /\
+  (forall k, tok_all fp ft (join_with "/" (skipn k segs)) = true).
+Proof.
+  intros Hs W T Sp.
+  assert (Ws : Forall wfenc segs).
+  { pose proof (path_segs_reenc p p (wfenc_reenc p W)) as S. rewrite Sp in S. inversion S as [|? ? S2]; subst.
+    clear -S2. induction S2 as [|a b l l' Hab _ IH]; [constructor|].
+    constructor; [first [eapply reenc_wf_r; exact Hab | eapply reenc_wf_l; exact Hab] | exact IH]. }
+  assert (Ts : Forall (fun s => tok_all fp ft s = true) segs).
+  { unfold path_segs in Sp. destruct p as [|c r]; [discriminate|].
+    destruct (Ascii.eqb c "/"%char) eqn:E; [|discriminate]. inversion Sp; subst.
+    apply ascii_eqb_true in E. subst c. rewrite tok_all_plain in T by reflexivity.
+    apply andb_true_iff in T as [_ T]. inversion W; subst.
+    rewrite split_on_eq. destruct (tok_all_split1 fp ft r) as [T1 T2]; try assumption. constructor; assumption. }
+  split.
+  - intros s Hin. rewrite Forall_forall in Ts. auto.
+  - intro k. apply tok_all_join; [assumption | apply Forall_skipn; assumption | apply Forall_skipn; assumption].
+Qed.
+
+Lemma find_rule_pieces_tok fp ft fx rules u c p : fp "/"%char = true -> u_rawpath u = p -> is_empty p = false ->
+  wfenc p -> tok_all fp ft p = true ->
+  find_rule fx rules u = Some c ->
+  Forall (fun kv => tok_all fp ft (snd kv) = true) (cd_caps c).
+Proof.
+  intros Hs Er Ne W T. unfold find_rule, lookup_path. rewrite Er, Ne.
+  destruct (path_segs p) as [segs|] eqn:Sp; [|discriminate]. intro H.
+  destruct (pieces_tok fp ft p segs Hs W T Sp) as [P1 P2].
+  apply (dfs_caps_inv _ (fun v => tok_all fp ft v = true) segs _ _ P1 P2) in H; [exact H|].
+  apply Forall_forall. intros x Hx. apply in_cands_of in Hx as (r & t & _ & _ & ->). constructor.
+Qed.
+
+(** `off`: an accepted request has no encoded slash, and every captured value is a
+    piece of the request path, decoded *)
+Theorem off_captures_decoded fx rules dflt host q p rid cs up :
+  p <> "*" ->
+  guard_F4 p = false ->
+  (fx2 fx = true \/ contains "%2f" p = false) ->
+  guard_F5 p = false ->
+  (forall r, In r rules -> r_id r = rid -> r_setting r = Off) ->
+  serve fx rules dflt host p q = Accepted rid false cs up ->
+  enc_slash p = false /\
+  Forall (fun kv => exists v, piece_of p v /\ snd kv = unescape_or_empty v) cs.
+Proof.
+  intros Hstar G4 G2 G5 Hst Hserve.
+  assert (Es : enc_slash p = false).
+  { destruct (enc_slash p) eqn:E; [|reflexivity].
+    destruct (off_rejects_encoded_slash _ _ _ _ _ _ _ _ _ _ E G4 G2 Hserve) as (_ & r & Hr & Hid & Hne).
+    elim Hne. apply Hst; assumption. }
+  split; [exact Es|]. revert Hserve.
+  unfold serve. destruct (view host p q) as [u|] eqn:V; [|discriminate].
+  assert (Ev : valid_encoded p = true) by (unfold guard_F4 in G4; apply negb_false_iff in G4; exact G4).
+  destruct (view_wf _ _ _ _ V Ev Hstar) as [W Eu].
+  pose proof (view_rawpath_nonempty _ _ _ _ V) as Ne. pose proof (view_valid _ _ _ _ V Ev) as Er. rewrite Er in Ne.
+  assert (L : lc_ok (fx2 fx) p = true).
+  { unfold lc_ok. destruct G2 as [->| ->]; [reflexivity | apply orb_true_r]. }
+  destruct (find_rule fx rules u) as [c|] eqn:F.
+  2:{ destruct dflt; [|discriminate]. unfold execute. destruct (has_enc_slash (fx2 fx) (u_rawpath u)); discriminate. }
+  pose proof (find_rule_in _ _ _ _ F) as Hin.
+  pose proof (find_rule_pieces fx rules (fx2 fx) u c p Er Ne W L G5 F) as Pc.
+  assert (Tp : tok_all (fun _ => true) ns_t p = true).
+  { rewrite enc_slash_tok in Es by assumption. apply negb_false_iff in Es. exact Es. }
+  pose proof (find_rule_pieces_tok (fun _ => true) ns_t fx rules u c p eq_refl Er Ne W Tp F) as Pt.
+  unfold execute. intro H.
+  assert (Erid : r_id (cd_rule c) = rid).
+  { destruct (r_setting (cd_rule c)); [destruct (has_enc_slash (fx2 fx) (u_rawpath u)); [discriminate|]| |];
+      inversion H; reflexivity. }
+  rewrite (Hst _ Hin Erid) in H. destruct (has_enc_slash (fx2 fx) (u_rawpath u)); [discriminate|].
+  inversion H; subst cs up. clear H.
+  rewrite Forall_map. rewrite Forall_forall in Pc, Pt. apply Forall_forall. intros [n v] Hx.
+  destruct (Pc _ Hx) as (Wv & Lv & Gv & Pv). pose proof (Pt _ Hx) as Tv. simpl in *.
+  exists v. split; [assumption|].
+  change (unprotect (unescape_or_empty (protect (fx2 fx) v))) with (unescape_capture fx Off v).
+  rewrite (capture_decoding fx Off v Wv); [| |assumption].
+  - apply dks_no_slash; [assumption|]. rewrite enc_slash_tok by assumption. rewrite Tv. reflexivity.
+  - unfold lc_ok in Lv. destruct (fx2 fx); [left; reflexivity | right]. simpl in Lv. apply negb_true_iff in Lv. exact Lv.
+Qed.
+
+(** a malformed escape never reaches heimdall *)
+Theorem malformed_rejected fx rules dflt host q p : unescape p = None -> serve fx rules dflt host p q = BadRequest.
+Proof.
+  intro H. unfold serve. rewrite view_eq.
+  destruct (String.eqb p "*" && is_empty q) eqn:E.
+  { apply andb_true_iff in E as [E _]. apply String.eqb_eq in E. subst p. discriminate. }
+  destruct (negb (has_prefix "/" p) || has_bad_target_byte p); [reflexivity|]. rewrite H. reflexivity.
+Qed.
